@@ -6,6 +6,7 @@ import Helios.Model.Http
 import Helios.Model.Registry
 import Helios.Model.Ids
 import Helios.Model.Config
+import Helios.Model.Pool
 /-
 Line-protocol driver: one operation per input line, one output line per operation.
 Core Lean only (compiled as the `driver` executable).  Every sub-model has its own
@@ -29,6 +30,7 @@ structure DState where
   idPlugins : List String := []
   idRl : Option Nat := none       -- tokens left (none = limiter off)
   idEjected : Bool := false
+  pool : Option Pool.State := none
 
 def words (line : String) : List String :=
   (line.splitOn " ").filter (fun w => w != "")
@@ -456,9 +458,51 @@ def cfgStep (compact : String) : String :=
     let plOk := pl == "none" || bcStep pl == "ok"
     if dup || !plOk then "load=ok start=err" else "load=ok start=ok"
 
+def closedStr (p : Pool.State) : String :=
+  let ids := p.closed.eraseDups
+  let sorted := ids.foldl (fun acc x => (acc.filter (· < x)) ++ [x] ++ (acc.filter (· > x))) ([] : List Nat)
+  "closed=" ++ ",".intercalate (sorted.map toString)
+
+def poolStep (s : DState) : List String → DState × String
+  | ["new", mi, to] =>
+    match mi.toNat?, to.toNat? with
+    | some mi, some to => ({ s with pool := some { maxIdle := mi, timeout := to } }, "ok")
+    | _, _ => (s, "bad-op")
+  | cmd :: args =>
+    match s.pool with
+    | none => (s, "bad-op")
+    | some p =>
+      match cmd, args with
+      | "get", [b, now] =>
+        match now.toNat? with
+        | some t =>
+          let r := Pool.get p b t
+          ({ s with pool := some r.1 }, (match r.2 with | some c => s!"conn {c} " | none => "none ") ++ closedStr r.1)
+        | none => (s, "bad-op")
+      | "put", [b, c, now] =>
+        match c.toNat?, now.toNat? with
+        | some c, some t =>
+          let r := Pool.put p b c t
+          ({ s with pool := some r.1 }, (if r.2 then "true " else "false ") ++ closedStr r.1)
+        | _, _ => (s, "bad-op")
+      | "close", [b, c] =>
+        match c.toNat? with
+        | some c => let p' := Pool.close p b c; ({ s with pool := some p' }, "ok " ++ closedStr p')
+        | none => (s, "bad-op")
+      | "cleanup", [now] =>
+        match now.toNat? with
+        | some t => let p' := Pool.cleanup p t; ({ s with pool := some p' }, "ok " ++ closedStr p')
+        | none => (s, "bad-op")
+      | "shutdown", [] => let p' := Pool.shutdown p; ({ s with pool := some p' }, "ok " ++ closedStr p')
+      | "stats", [b] => let st := Pool.stats p b; (s, s!"stats {st.1} {st.2}")
+      | _, _ => (s, "bad-op")
+  | _ => (s, "bad-op")
+
 def step (s : DState) (line : String) : DState × String :=
   match words line with
   | "rw" :: rest => (s, rwStep rest)
+  | "pool" :: rest => poolStep s rest
+  | ["ws", _chain, sizes] => (s, s!"ws ok {(sizes.splitOn ",").length}")
   | ["cfg", _path, compact] => (s, cfgStep compact)
   | ["cfgfile", _path] => (s, "load=ok start=ok")
   | "id" :: rest => idStep s rest
